@@ -837,3 +837,17 @@ Definition ex_entries : list entry :=
 
 Lemma ex_wf : Forall (wf_entry ex_io) ex_entries.
 Proof. repeat constructor; vm_compute; reflexivity. Qed.
+
+(* ================= several AppendTar calls = one call on the concatenation (after C03-fix-1) ================= *)
+Lemma run_entries_app : forall i o a b s,
+  run_entries i o s (a ++ b) = bind (run_entries i o s a) (fun s' => run_entries i o s' b).
+Proof.
+  induction a as [|e a IH]; intros b s; simpl; [reflexivity|].
+  destruct (step_entry i o s e); simpl; [apply IH|reflexivity|reflexivity].
+Qed.
+
+Lemma append_calls_concat : forall i o calls s, append_calls i o s calls = run_entries i o s (concat calls).
+Proof.
+  induction calls as [|c t IH]; intros s; simpl; [reflexivity|].
+  rewrite run_entries_app. destruct (run_entries i o s c); simpl; [apply IH|reflexivity|reflexivity].
+Qed.
